@@ -1,5 +1,5 @@
 \* seeded fault fault_skip_stops: TLC must reject this configuration (teeth of the model)
-* bound: per payload type at most one item (announced or withdrawn), every threshold
+\* bound: both streams, per payload type at most one item (announced or withdrawn), every threshold
 SPECIFICATION Spec
 CONSTANTS
   Shapes <- ShapesTiny
@@ -12,5 +12,4 @@ CONSTANTS
   SzA = 3
   Variant = "fault_skip_stops"
 INVARIANTS TypeOK Counter C18_Prefix C18_Exact C18_Progress Chunking
-
 CHECK_DEADLOCK TRUE
